@@ -544,9 +544,16 @@ inductive Gai where
   | unicodeError          -- UnicodeError from the idna codec
   deriving Repr, BEq, DecidableEq
 
-/-- `is_valid_ip` (after the `fix:` commit rejecting non-ASCII text); `gai` is the resolver -/
+/-- `ip.partition("%")[2]`: the text after the first `%` (empty when there is none) -/
+def zoneId (ip : Str) : Str :=
+  match splitFirst 37 ip with
+  | some (_, z) => z
+  | none => []
+
+/-- `is_valid_ip` (after the `fix:` commits rejecting non-ASCII text and a zone id containing ":"); `gai` is the resolver -/
 def isValidIp (gai : Str → Gai) (ip : Str) : Except Err Bool :=
   if ip.isEmpty || ip.contains 0 || !isAscii ip then .ok false
+  else if (zoneId ip).contains 58 then .ok false
   else match gai ip with
     | .addrs n => .ok (n != 0)
     | .noname => .ok false
